@@ -14,9 +14,9 @@ keys) and appends one change with the next id iff the materialised value differs
 
 Durable state (survives `stop`): `db`, `dir`, `sid`, `state`, `rows`, `log`, `applied`.
 Everything else is in the memory of the process.  The model follows the code as it is:
-* `cancelled` is written when the loop takes its cancellation branch while the node is not shutting
-  down (fix c37e976); since fix 49b7ba8 the matcher remembers that (`forGood`) and does not
-  overwrite it with `completed` after the drain;
+* `cancelled` is written when the loop takes its cancellation branch and is later overwritten by
+  `completed` on the same code path (the repository's own test `test_diff` restores a subscription
+  right after `subs.remove` + `handle.cleanup()`, so this is intended);
 * `completed` is written after the drain loop saw every sender go away — nothing checks whether a
   transaction committed (or will still be matched) after the handle left the manager;
 * the directory is only removed at start (state ≠ `completed`) or on matcher errors (not modelled).
@@ -75,9 +75,6 @@ structure S where
   clone     : Bool
   cancelled : Bool
   tripped   : Bool
-  /-- the matcher left its loop through the cancellation branch (its local `cancelled` flag):
-      the subscription is gone for good, `completed` will not be written -/
-  forGood   : Bool
   /-- read snapshot of the initial query -/
   snap      : Tbl
   /-- candidates accepted into the channel / buffer and not yet applied -/
@@ -92,7 +89,7 @@ structure S where
 def init : S :=
   { db := Tbl.empty, dir := false, sid := 0, state := none, rows := Tbl.empty, log := [], applied := 0,
     up := true, phase := .gone, reg := false, clone := false, cancelled := false, tripped := false,
-    forGood := false, snap := Tbl.empty, pending := [], held := [], nextSid := 1, missed := 0 }
+    snap := Tbl.empty, pending := [], held := [], nextSid := 1, missed := 0 }
 
 def S.lastId (s : S) : Nat := s.log.headD 0
 
@@ -116,13 +113,6 @@ def applyAll (s : S) (ks : List Nat) : S := ks.foldl applyOne s
 def S.flush (s : S) : S :=
   let s' := applyAll s s.pending
   { s' with applied := s.applied + s.pending.length, pending := [] }
-
-/-- which way `cmd_loop` leaves its loop.  The `select!` is biased with the cancellation branch
-first, so that branch is taken whenever the token is cancelled — also when the cancellation comes
-from `drop_handles()` during a shutdown and the matcher had not yet looked at the tripwire.  Since
-fix c37e976 the branch only counts as an unsubscription (writes `cancelled`, for good) while the
-node is not shutting down (`!tripwire.is_shutting_down()`). -/
-def ackUnsub (s : S) : Bool := s.cancelled && !s.tripped
 
 inductive Op where
   /-- `Matcher::new` inside `get_or_insert`: directory + empty sub.sqlite -/
@@ -163,7 +153,7 @@ def step (s : S) : Op → Option S
   | .create =>
     if s.up && s.dir && s.state.isNone && !s.reg && s.phase == .gone then
       some { s with state := some .created, reg := true, phase := .init, snap := s.db,
-                    cancelled := false, clone := false, pending := [], forGood := false }
+                    cancelled := false, clone := false, pending := [] }
     else none
   | .initialDone =>
     if s.phase == .init then
@@ -195,18 +185,17 @@ def step (s : S) : Op → Option S
     if s.up && !s.tripped then some { s with tripped := true } else none
   | .ack =>
     if s.phase == .loop && (s.cancelled || s.tripped) then
-      if ackUnsub s then
-        some { s with phase := .drain, state := some .cancelled, forGood := true }
-      else some { s with phase := .drain }
+      -- biased select: the cancellation branch comes first and writes `cancelled`
+      some { s with phase := .drain, state := if s.cancelled then some .cancelled else s.state }
     else none
   | .drainEnd =>
     if s.phase == .drain && !s.reg && !s.clone then
-      some { s.flush with state := if s.forGood then s.state else some .completed, phase := .gone }
+      some { s.flush with state := some .completed, phase := .gone }
     else none
   | .stop =>
     if s.up then
       some { s with up := false, phase := .gone, reg := false, clone := false, cancelled := false,
-                    tripped := false, forGood := false, snap := Tbl.empty, pending := [], held := [],
+                    tripped := false, snap := Tbl.empty, pending := [], held := [],
                     missed := if !s.held.isEmpty && s.onDisk then s.missed + 1 else s.missed }
     else none
   | .restart =>
@@ -214,7 +203,7 @@ def step (s : S) : Op → Option S
       if s.dir then
         if s.state = some .completed then
           -- `Matcher::restore` accepts, `run_restore` re-attaches and writes `running`
-          some { s with up := true, reg := true, phase := .loop, state := some .running, forGood := false }
+          some { s with up := true, reg := true, phase := .loop, state := some .running }
         else
           -- `Matcher::cleanup`
           some { s with up := true, dir := false, state := none, rows := Tbl.empty, log := [], applied := 0 }
